@@ -101,7 +101,7 @@ def check_nx(b, names, roots, tts, res):
         if u in memo:
             return memo[u]
         r = 0
-        vm = vmask(names.index(b._level_to_var[g.nodes[u]['level']]), n)
+        vm = vmask(names.index(b.var_at_level(g.nodes[u]['level'])), n)
         for _, x, dt in g.out_edges(u, data=True):
             tx = ev(x)
             if dt['complement']:
@@ -277,6 +277,12 @@ def case_rootsets(c, res):
     if rnd.random() < .3:
         roots.append(-roots[0]); tts.append(~tts[0] & full(n)); b.incref(roots[0])
     build(b, rnd.getrandbits(1 << n), names)   # unreferenced nodes must not appear
+    if c['seed'] % 3 == 0:
+        # declare extra variables at random positions is not possible after the fact; instead remove the unused ones
+        # (levels are compacted): the views must follow
+        b.collect_garbage()
+        b.undeclare_vars()
+        order_views_ok(b)
     td = tempfile.mkdtemp(prefix='verif_c18_')
     try:
         check_descendants(m, b, roots, res)
